@@ -27,6 +27,10 @@ import types
 LOCK_SH, LOCK_EX, LOCK_NB, LOCK_UN = 1, 2, 4, 8
 
 
+class HarnessCreateMissing(Exception):
+    """os.open(O_CREAT) of a missing file but the simulation has no way to create files."""
+
+
 class _OpenFile:
     __slots__ = ('inode', 'flags', 'path')
 
@@ -37,9 +41,10 @@ class _OpenFile:
 
 
 class SimOS:
-    def __init__(self, kernel, exists=None, edeadlk=True, faults=None, stats=None):
+    def __init__(self, kernel, exists=None, edeadlk=True, faults=None, stats=None, create=None):
         self.k = kernel
         self.exists = exists if exists is not None else _os.path.exists
+        self.create = create
         self.edeadlk = edeadlk
         self.faults = faults
         self.stats = stats if stats is not None else {}
@@ -88,6 +93,10 @@ class SimOS:
         if not self.exists(path):
             if not (flags & _os.O_CREAT):
                 raise FileNotFoundError(errno.ENOENT, 'No such file or directory', path)
+            if self.create is None:
+                raise HarnessCreateMissing(path)
+            self.create(path)
+            self.k.log('creat', pid, _os.path.basename(path))
         table = self.fds.setdefault(pid, {})
         fd = 3
         while fd in table:
